@@ -8,6 +8,7 @@ import (
 	"io"
 	"math/big"
 	"math/rand"
+	"runtime/debug"
 	"strings"
 	"testing/iotest"
 
@@ -101,6 +102,13 @@ func c10readers() []readerKind {
 			// would scribble on the caller's data
 			r := bytes.NewBuffer(b)
 			return r, func() int { return len(b) - r.Len() }
+		}, clean},
+		{"bytes.Buffer-over-read-only-memory", func(b []byte, _ *rand.Rand) (io.Reader, func() int) {
+			// the stream's bytes are on a read-only page: a decoder that works in place on a zero-copy view faults (the
+			// fault is turned into a panic, which the caller of Read reports)
+			rb := roBytesBudget(b)
+			r := bytes.NewBuffer(rb)
+			return r, func() int { return len(rb) - r.Len() }
 		}, clean},
 		{"one-byte", func(b []byte, _ *rand.Rand) (io.Reader, func() int) {
 			r := bytes.NewReader(b)
@@ -342,6 +350,7 @@ func c10nested(rng *rand.Rand) {
 }
 
 func runC10(c *mon.Ctx) {
+	defer debug.SetPanicOnFault(debug.SetPanicOnFault(true)) // writes to read-only inputs become panics
 	pool := NewPool(c.Rand("pool"), 40)
 	c10ctx = c
 	c10other = c10valid(c.Rand("other"), pool)
